@@ -218,11 +218,22 @@ RD_Segment ==
     /\ rdcur' = Head(inbound) /\ inbound' = Tail(inbound) /\ rdpc' = "decode"
     /\ UNCHANGED <<appScript, apos, pv, cstate, sTok, rTok, sendQ, slpc, scur, queued, count, recvQc,
                    rlpc, rcurm, stpc, stTo, stWho, sreply, rreply, stopped, errPending>>
+\* the read loop accounts the message under pendingBytesMu (MsgIn), RELEASES the mutex, and only then hands
+\* the message to the receive queue, blocking while the queue is full (capacity RecvCap)
+\*   Variant = "lockAcrossEnqueue": the mutex is kept until the message is in the queue (a defective
+\*   design: recvLoop needs the same mutex to release the bytes of the message it has just handled)
+RecvCap   == IF Variant \in {"smallQueue", "lockAcrossEnqueue"} THEN 1 ELSE 3
+MaxChunks == IF Variant \in {"smallQueue", "lockAcrossEnqueue"} THEN 3 ELSE 1
 RD_Admit ==
-    /\ rdpc = "decode" /\ rdcur # BadType /\ Len(recvQc) < 3
+    /\ rdpc = "decode" /\ rdcur # BadType
     /\ EvMsgIn(Me, rdcur, 1, "x", pend[Me] + 1, 0, cstate)
+    /\ rdpc' = "enqueue"
+    /\ UNCHANGED <<inbound, appScript, apos, pv, cstate, sTok, rTok, sendQ, slpc, scur, queued, count, rdcur, recvQc,
+                   rlpc, rcurm, stpc, stTo, stWho, sreply, rreply, stopped, errPending>>
+RD_Enqueue ==
+    /\ rdpc = "enqueue" /\ Len(recvQc) < RecvCap
     /\ recvQc' = Append(recvQc, rdcur) /\ rdpc' = "idle"
-    /\ UNCHANGED <<inbound, appScript, apos, pv, cstate, sTok, rTok, sendQ, slpc, scur, queued, count, rdcur,
+    /\ UNCHANGED <<ovars, inbound, appScript, apos, pv, cstate, sTok, rTok, sendQ, slpc, scur, queued, count, rdcur,
                    rlpc, rcurm, stpc, stTo, stWho, sreply, rreply, stopped, errPending>>
 RD_DecodeError ==
     /\ rdpc = "decode" /\ rdcur = BadType /\ errPending = "none"
@@ -230,7 +241,7 @@ RD_DecodeError ==
     /\ UNCHANGED <<ovars, inbound, appScript, apos, pv, cstate, sTok, rTok, sendQ, slpc, scur, queued, count,
                    rdcur, recvQc, rlpc, rcurm, stpc, stTo, stWho, sreply, rreply, stopped>>
 RD_Exit ==
-    /\ \/ rdpc \in {"idle", "decode"} /\ (stopped \/ slpc = "exit")
+    /\ \/ rdpc \in {"idle", "decode", "enqueue"} /\ (stopped \/ slpc = "exit")
        \/ rdpc = "error" /\ errPending # "read"
     /\ EvExit(Me, "read") /\ rdpc' = "exit"
     /\ UNCHANGED <<inbound, appScript, apos, pv, cstate, sTok, rTok, sendQ, slpc, scur, queued, count, rdcur,
@@ -257,6 +268,7 @@ RL_Handle ==
                    rdcur, recvQc, rcurm, stpc, stTo, stWho, sreply, stopped, errPending>>
 RL_Release ==
     /\ rlpc = "handling"
+    /\ ~(Variant = "lockAcrossEnqueue" /\ rdpc = "enqueue")        \* pendingBytesMu is held by the read loop
     /\ EvRelease(Me, rcurm, 1, pend[Me] - 1)
     /\ rlpc' = "waitTok"
     /\ UNCHANGED <<inbound, appScript, apos, pv, cstate, sTok, rTok, sendQ, slpc, scur, queued, count, rdpc,
@@ -308,7 +320,7 @@ PeerAnswer ==
     /\ PeerMode = "conforming" /\ AgencyC(pstate) = Peer(Me) /\ Len(inbound) < 2
     /\ \E i \in DOMAIN StateMapC.trans :
          /\ StateMapC.trans[i].f = pstate
-         /\ (StateMapC.trans[i].t = pstate) => pchunks < 1          \* at most one streamed message per request
+         /\ (StateMapC.trans[i].t = pstate) => pchunks < MaxChunks  \* bounded streaming per request
          /\ inbound' = Append(inbound, StateMapC.trans[i].m)
          /\ pstate' = StateMapC.trans[i].t
          /\ pchunks' = IF StateMapC.trans[i].t = pstate THEN pchunks + 1 ELSE 0
@@ -320,7 +332,7 @@ Next ==
     \/ ST_Init \/ ST_RequestSend \/ ST_RequestRecv \/ ST_Set \/ ST_Exit
     \/ Enqueue
     \/ SL_TakeTok \/ SL_QueuedDone \/ SL_Dequeue \/ SL_FirstDone \/ SL_Flush \/ SL_Refused \/ SL_Exit
-    \/ RD_Segment \/ RD_Admit \/ RD_DecodeError \/ RD_Exit
+    \/ RD_Segment \/ RD_Admit \/ RD_Enqueue \/ RD_DecodeError \/ RD_Exit
     \/ RL_TakeTok \/ RL_TakeMsg \/ RL_Handle \/ RL_Release \/ RL_Failed \/ RL_Exit
     \/ SE_Report \/ SE_Stop
 
@@ -345,6 +357,6 @@ ConformingNeverFails ==
 ConversationCompletes ==
     PeerMode = "conforming" =>
         <>[](apos > Len(appScript) /\ sendQ = <<>> /\ outWire = <<>> /\ batch = <<>> /\ queued = <<>>
-             /\ inbound = <<>> /\ recvQc = <<>> /\ rlpc \in {"waitTok", "waitMsg"})
+             /\ inbound = <<>> /\ recvQc = <<>> /\ rdpc = "idle" /\ rlpc \in {"waitTok", "waitMsg"})
 ErrorLeadsToShutdown == (errCount[Me] > 0) ~> (exits[Me] = {"send", "read", "recv", "state"})
 =============================================================================
